@@ -10,7 +10,7 @@ wt=/tmp/confirm-wt-$$
 git -C /repo worktree add -q --detach "$wt" HEAD || exit 2
 trap 'git -C /repo worktree remove --force "$wt" >/dev/null 2>&1' EXIT
 cd "$wt" || exit 2
-readme=$md/demo/README.md
+readme=$(mktemp); tr '\n' ' ' < $md/demo/README.md | sed -E 's/(go test )/\n    \1/g; s/(Clean tree|Expected|What the|With `?patch)/\n\1/g' > $readme; echo >> $readme
 mapfile -t copies < <( { grep -oE 'Copy `[^`]+` to `[^`]+`' "$readme" | sed -E 's/Copy `([^`]+)` to `([^`]+)`/\1 \2/'; grep -oE '[A-Za-z0-9_./-]+\.go[` ]*-> *`?[A-Za-z0-9_./-]+\.go' "$readme" | sed -E 's/[` ]*-> *`?/ /'; } | awk '{n=split($1,a,"/"); src=$1; if (index($1,"demo/")) {sub(/^.*demo\//,"",src)}; print src" "$2}' | sort -u)
 if [ ${#copies[@]} -eq 0 ]; then echo "no demo copy instructions parsed from $readme"; exit 2; fi
 mapfile -t cmds < <(grep -E '^\s*go test ' "$readme" | sed -E 's/^\s+//')
